@@ -7,8 +7,8 @@ PROP_FILE = 'C11'
 
 def mons():
     return [M.m_terminates, M.m_limits,
-            lambda r: M.m_download_window(r, r.config.max_in_memory_download_chunks),
-            lambda r: M.m_window_capacity(r, r.config.max_in_memory_download_chunks)]
+            lambda r: M.m_download_window(r, r.requested.max_in_memory_download_chunks),
+            lambda r: M.m_window_capacity(r, r.requested.max_in_memory_download_chunks)]
 
 
 def specs(ctx):
@@ -32,6 +32,18 @@ def specs(ctx):
     out += sysrun.specs_shared_window(ctx, 400 if ctx.thorough() else 120)
     # many stream uploads BELOW the multipart threshold sharing one manager: their bodies are
     # buffered too and count against max_in_memory_upload_chunks (one PutObject body each)
+    # streams whose read(n) returns less than asked and then more than is still missing from the part
+    # (the part buffer must not grow past the chunk size), and limits that differ between the upload
+    # and the download side (each side is held to its own)
+    for i in range(80 if ctx.thorough() else 20):
+        ts = [dict(kind='upload', src='nonseekable', size=rng.choice([11, 14, 17]), read_sizes=[1, 9, 2, 9, 1, 9, 9]),
+              dict(kind='download', dst='nonseekable', size=rng.choice([12, 16]))]
+        up, down = rng.choice([(1, 3), (3, 1), (2, 4), (4, 2)])
+        cfg = dict(max_request_concurrency=rng.choice([2, 3]), max_submission_concurrency=rng.choice([1, 2]),
+                   max_in_memory_upload_chunks=up, max_in_memory_download_chunks=down,
+                   multipart_chunksize=rng.choice([3, 4]), multipart_threshold=rng.choice([3, 4]), io_chunksize=2)
+        out.append(dict(transfers=ts[:1 + i % 2] if i % 3 else ts, cfg=cfg,
+                        chooser={'kind': ['pct', 'random'][i % 2], 'seed': rng.randrange(1 << 30), 'depth': 5}))
     for i in range(60 if ctx.thorough() else 16):
         k = rng.choice([4, 5, 6])
         ts = [dict(kind='upload', src='nonseekable', size=rng.choice([1, 2])) for _ in range(k)]
